@@ -220,7 +220,11 @@ class SchemaBuilder(
             key = self.visit(key_type)
         if "type" not in key or key["type"] != JsonType.STRING:
             raise ValueError("Mapping types must have string-convertible keys")
-        value = self.visit(value_type)
+        with context_setter(self):
+            # only the own reference of an aggregate field's type is ignored,
+            # not the ones of its values (which can be recursive)
+            self._ignore_first_ref = False
+            value = self.visit(value_type)
         if "pattern" in key:
             return json_schema(
                 type=JsonType.OBJECT, patternProperties={key["pattern"]: value}
